@@ -110,23 +110,22 @@ _INSTRUCTION_NAMES = ('$', '%', 'cd', 'copy', 'def', 'dir', 'env', 'file', 'run'
                       'exit-code', 'contents', 'stdout', 'stderr', 'exists', 'dir-contents')
 
 
-def _leftover(text, end, target_end):
+def _leftover(text, end, target_end, ws):
     """The instruction ended at `end`, before the text written for it: what do the left-over lines give?
 
-    -> 'syntax' if the first left-over line that is an instruction line starts with a word that is no
-    instruction name, else None (not predicted)."""
+    -> the number of the first left-over line that is an instruction line and starts with a word that is no
+    instruction name (a syntax error there), else None (not predicted).  `ws` = the white space of the reading."""
     nl = text.find('\n', end)
     if nl < 0:
         return None
     line_no = text.count('\n', 0, nl) + 2
     for line in text[nl + 1:target_end].split('\n'):
-        st = line.strip(' \t')
+        st = line.strip(ws)
         if st == '' or st.startswith('#'):
             line_no += 1
             continue
-        if st.strip(ref.ALL_WS) == '' or st[0] in ref.ALL_WS:
-            return None  # how the document parser takes a line of / starting with other white space: not C09's
-        if st.startswith('[') or st.split()[0] in _INSTRUCTION_NAMES:
+        first_word = re.split('[' + re.escape(ws) + ']', st, maxsplit=1)[0]
+        if st.startswith('[') or first_word in _INSTRUCTION_NAMES:
             break
         return line_no
     return None
@@ -177,8 +176,8 @@ def _outcomes(host, rd, symbols, ctx):
             # the value must end where the instruction ends, else the following lines are something else
             if end > target_end:
                 oc = ['illformed']
-            elif text[end:target_end].strip(ref.ALL_WS) != '':
-                line = _leftover(text, end, target_end) if host != 'act' else None
+            elif text[end:target_end].strip(ref.ASCII_WS + var['ws_extra']) != '':
+                line = _leftover(text, end, target_end, ref.ASCII_WS + var['ws_extra']) if host != 'act' else None
                 oc = ['illformed'] if line is None else ['syntax', _PHASE.get(host, 'setup'),
                                                          rd['location'][:-1] + [[rd['src_name'], line]]]
         oc = _observable(host, oc, ctx)
